@@ -54,6 +54,8 @@ def announce_watchdog(
 ) -> bool:
     async def callback(name: str) -> None:
         for neighbor_name in reactor.configuration.neighbors.keys():
+            if neighbor_name not in peers:
+                continue
             neighbor = reactor.configuration.neighbors.get(neighbor_name, None)
             if not neighbor:
                 continue
@@ -72,6 +74,8 @@ def withdraw_watchdog(
 ) -> bool:
     async def callback(name: str) -> None:
         for neighbor_name in reactor.configuration.neighbors.keys():
+            if neighbor_name not in peers:
+                continue
             neighbor = reactor.configuration.neighbors.get(neighbor_name, None)
             if not neighbor:
                 continue
